@@ -190,7 +190,7 @@ func runC05(r *simrt.Run, tier Tier) Outcome {
 	}
 	derived := 0
 	for k := range first.Facts {
-		if strings.HasPrefix(k, "p") {
+		if strings.HasPrefix(k, "p") || strings.HasPrefix(k, "g") {
 			derived++
 		}
 	}
